@@ -429,11 +429,12 @@ func c13NewCond(kind, name string, opt int) (Condition, error) {
 // c13Ctx is one routing policy holding one defined set "s" and three conditions (any/all/invert)
 // bound to it the way the daemon binds them (RoutingPolicy.validateCondition).
 type c13Ctx struct {
-	kind    string
-	rp      *RoutingPolicy
-	conds   [3]Condition
-	singles map[string]*c13Ctx // classifier cache: one-pattern sets by stored pattern
-	verdict map[string][2]string
+	kind     string
+	rp       *RoutingPolicy
+	conds    [3]Condition
+	singles  map[string]*c13Ctx // classifier cache: one-pattern sets by stored pattern
+	verdict  map[string][2]string
+	reported map[string]bool
 }
 
 const c13SetName = "s"
@@ -609,6 +610,14 @@ func (x *c13Ctx) classify(ref *c13Ref, vals []*c13Val) (key, detail string) {
 }
 
 func (x *c13Ctx) report(c *vr.Report, ref *c13Ref, in []string, edits []c13Edit, opt int, vals []*c13Val, got, want bool, pan string) {
+	// after the first case of a signature on this worker only its count is bumped (the recorder keeps
+	// the first case per signature anyway)
+	if pan == "" {
+		if k, _ := x.classify(ref, vals); k != "" && x.reported[k] {
+			c.Violation(k, "", nil)
+			return
+		}
+	}
 	texts := make([]string, len(vals))
 	canon := make([]string, len(vals))
 	for i, v := range vals {
@@ -636,6 +645,10 @@ func (x *c13Ctx) report(c *vr.Report, ref *c13Ref, in []string, edits []c13Edit,
 		k = "C13:" + x.kind + ":combination:modes=" + strings.Join(sm, ",")
 		detail = "every pattern alone agrees with its regexp; the combination does not"
 	}
+	if x.reported == nil {
+		x.reported = map[string]bool{}
+	}
+	x.reported[k] = true
 	c.Violationf(k, cs, "%s set stored=%q (configured %q, edits %v) option=%s communities=%v: condition=%v regexp=%v; %s",
 		x.kind, ref.stored, in, edits, c13OptName[opt], canon, got, want, detail)
 }
@@ -899,7 +912,7 @@ var c13StdCore = []string{
 	`^\d+:1$`, "^[0-9]+:(1|2)$", `^\d*:100$`,
 	"65000:1$", "^.*:1$", "^(65000|65001):1$", "6500[01]:1", ".*", `^\d+:\d+$`, "^65000:1$|^65001:2$",
 	"^007:1$", "^7:01$", "^6500:?1", `^65000::\d+$`, `^\d+:(1 | 2)$`, `^\d+:01$`, "^65000:65536$", "^65536:1$", `^\d+:(1|1)$`,
-	"65000:1", "no-export",
+	"65000:1", "no-export", `^007::\d+$`,
 }
 var c13StdCoreThorough = []string{
 	"^7:1$", "^0:1$", "^65535:0$", "^65000:0$", "^65000:65535$", "^65001:100$",
@@ -929,6 +942,7 @@ var c13ExtCoreBodies = []string{
 	`^\d+:1$`, "^[0-9]+:(1|2)$",
 	"65000:1$", "^.*:1$", `^1\.2\.3\.4:1$`, `^0\.65000:1$`, ".*", "^(65000|65001):1$",
 	"^007:1$", "^65000:01$", "^6500:?1", `^65000::\d+$`, "^65000:(1 | 2)$", `^\d+:(1 | 2)$`, `^\d+:01$`, "65000:1", "VXLAN",
+	"^007:(1 | 2)$", `^007::\d+$`,
 }
 var c13ExtPrefixes = []string{"rt:", "soo:", "lb:", "encap:"}
 var c13ExtPrefixNearMiss = []string{"RT:", "Soo:", "rt :", "xx:", "", "2:", "rt", "valid", "rt::"}
@@ -1377,6 +1391,15 @@ func TestVerif_C13(t *testing.T) {
 			}
 		}
 		nseq += len(seqs)
+		if d == 1 {
+			// sequential, so that the kept case of every signature found at depth 1 is the same on every run
+			x, f := c13Ctxs(), c13Ctxs()
+			st := map[string]map[string]string{c13Std: {}, c13Ext: {}, c13Large: {}}
+			for _, s := range seqs {
+				c13RunSeq(r, x[s.kind], f[s.kind], s.initial, s.edits, eu[s.kind], st[s.kind])
+			}
+			continue
+		}
 		r.Parallel(W, func(w int, c *vr.Report) {
 			x, f := c13Ctxs(), c13Ctxs()
 			st := map[string]map[string]string{c13Std: {}, c13Ext: {}, c13Large: {}}
